@@ -87,6 +87,16 @@ func (f *ReverseBoltCursor) Seek(val []byte) {
 	}
 }
 
+// typedCursorKey strips the type byte from a bolt key. Unlike GetTypeAndValue it never maps a
+// present key to nil: a nil key means the cursor is exhausted, while a key holding only the
+// type byte is the empty element.
+func typedCursorKey(key []byte) []byte {
+	if len(key) == 0 {
+		return nil
+	}
+	return key[1:]
+}
+
 func NewTypedForwardBoltCursor(cursor *bbolt.Cursor, fieldType FieldType) ast.SeekableSetCursor {
 	result := &TypedForwardBoltCursor{
 		BaseBoltCursor: BaseBoltCursor{
@@ -97,7 +107,7 @@ func NewTypedForwardBoltCursor(cursor *bbolt.Cursor, fieldType FieldType) ast.Se
 	}
 
 	key, _ := result.cursor.First()
-	_, result.key = GetTypeAndValue(key)
+	result.key = typedCursorKey(key)
 
 	return result
 }
@@ -109,13 +119,13 @@ type TypedForwardBoltCursor struct {
 
 func (f *TypedForwardBoltCursor) Next() {
 	key, _ := f.cursor.Next()
-	_, f.key = GetTypeAndValue(key)
+	f.key = typedCursorKey(key)
 }
 
 func (f *TypedForwardBoltCursor) Seek(val []byte) {
 	searchVal := PrependFieldType(f.fieldType, val)
 	key, _ := f.cursor.Seek(searchVal)
-	_, f.key = GetTypeAndValue(key)
+	f.key = typedCursorKey(key)
 }
 
 func NewTypedReverseBoltCursor(cursor *bbolt.Cursor, fieldType FieldType) ast.SeekableSetCursor {
@@ -128,7 +138,7 @@ func NewTypedReverseBoltCursor(cursor *bbolt.Cursor, fieldType FieldType) ast.Se
 	}
 
 	key, _ := result.cursor.Last()
-	_, result.key = GetTypeAndValue(key)
+	result.key = typedCursorKey(key)
 
 	return result
 }
@@ -140,7 +150,7 @@ type TypedReverseBoltCursor struct {
 
 func (f *TypedReverseBoltCursor) Next() {
 	key, _ := f.cursor.Prev()
-	_, f.key = GetTypeAndValue(key)
+	f.key = typedCursorKey(key)
 }
 
 func (f *TypedReverseBoltCursor) Seek(val []byte) {
